@@ -113,3 +113,7 @@ def run(ctx):
     for kind in XC.TRACING:
         ctx.guarded(r, XC.check_choice_protocol, kind)
     ctx.guarded(r, XC.check_strictness)
+    from . import C05 as C05_
+
+    r = ctx.rule("R10", "a decided choice op is its selected operand for every value type: Grad min / max / and / or return that operand whole (value and derivatives), so a simplified tape has the original's gradient", 14)
+    ctx.guarded(r, C05_.r3_piecewise)
